@@ -55,6 +55,9 @@ def gen_connect_bad(rng, t):
         out.append(ACase("connect-malformed-id", ["connect"], [[ev_data(ping_resp())], [ev_data(bytes(bad))]], {"dev": dev, "mode": "malformed-id"}))
         out.append(ACase("connect-malformed-id", ["connect"], [[ev_data(ping_resp())], [ev_data(frame(1, [dev & 0xFF, dev >> 8], bad_chk=1))]], {"dev": dev, "mode": "malformed-id"}))
         out.append(ACase("connect-malformed-id", ["connect"], [[ev_data(ping_resp())], [ev_data(frame(7, [dev & 0xFF, dev >> 8]))]], {"dev": dev, "mode": "malformed-id"}))
+        # complete, checksum-correct answers that lack only the terminating line feed, then silence: no frame has arrived
+        out.append(ACase("connect-unterminated", ["connect"], [[ev_data(ping_resp())], [ev_data(d[:-1])]], {"dev": dev, "mode": "malformed-id"}))
+        out.append(ACase("connect-unterminated", ["connect"], [[ev_data(ping_resp()[:-1])], [ev_data(d)]], {"dev": dev, "mode": "malformed-ping"}))
         out.append(ACase("connect-fault", ["connect"], connect_react(dev), {"dev": dev, "mode": "fault"}, wf="1"))
         out.append(ACase("connect-fault", ["connect"], connect_react(dev), {"dev": dev, "mode": "fault"}, wf="01"))
         # input left unread on the port by an earlier session (a complete answer to some other command, a
